@@ -23,9 +23,15 @@
     `skip_serializing_if` holds; a flattened map is written after/among them entry by entry.
   * a struct-level `#[serde(tag = "k", rename = "c")]` (`Reference`, `Annotation`, …) is
     serialise-only: `k: "c"` is written first, and on input `k` is one more unknown key (`ghost`);
+    NOT modelled faithfully in combination with a `#[serde(flatten)]` catch-all in the same struct:
+    serde would collect the input's `k` entry into the flatten map and then write the key `k` twice
+    (the constant, then the collected entry), while `known` below counts the ghost's name as claimed
+    and the input's entry is dropped. No modelled type combines the two, and `WF`
+    (`Spec/ContentSchema.lean`) and the check `wfb` exclude the combination;
   * a scalar type (`String`, identifiers, string enums, `Base64`, `Int`/`UInt`, `bool`, `f64`,
     `VoipVersionId`, `deserialize_v1_powerlevel`) reads one JSON scalar and writes one back, most of
-    them the same one (`Schema.scalar`, instances at the end of this file);
+    them the same one (`Schema.scalar`, instances at the end of this file; the scalar types that
+    actually occur are enumerated as `Leaf` in `Model/ContentSchemaLeaves.lean`);
   * `#[serde(tag = "k")]` enums of structs (internally tagged): the string under `k` selects the
     struct (`tagged`);
   * `Vec<T>`: every element is read with `T`; `BTreeMap<K, V>`: every entry is read (key parsed
